@@ -93,20 +93,26 @@ def check_case(case, rec):
                 continue
         else:
             mp = {n: i for i, n in enumerate(order, 1)}
-        ok, _ = rec.guard('read-back-normalise', molgen.normalise, x, expected=())
-        if not ok:
+        try:
+            molgen.normalise(x)
+        except Exception as e:
+            rec.fail('read-back-normalise', f'{str(m)!r} --{f!r}--> {text!r}: read-back cannot be normalised: {type(e).__name__}: {e}',
+                     sig='aromatic-P-ambiguity' if wl.aromatic_p_ambiguity(m) else type(e).__name__)
             continue
         sx = molgen.snapshot(x)
         want = molgen.map_snapshot(snap, mp)
         if sx != want:
             diff = [(n, want[n], sx.get(n)) for n in want if want[n] != sx.get(n)][:3]
-            rec.fail('atomwise', f'{str(m)!r} --{f!r}--> {text!r}: {diff}', sig='A' if 'A' in f else ('h' if 'h' in f else ''))
+            rec.fail('atomwise', f'{str(m)!r} --{f!r}--> {text!r}: {diff}',
+                     sig='aromatic-P-ambiguity' if wl.aromatic_p_ambiguity(m) else ('A' if 'A' in f else ('h' if 'h' in f else '')))
             continue
         d = molgen.compare_stereo(m, x, mp)
         if d:
             sig = d[0][0]
             if d[0][0].startswith('cis-trans') and wl.annulene_stereo(m):
                 sig = 'annulene-stereo'
+            elif d[0][0].startswith('cis-trans') and (wl.radialene_stereo(m) or wl.ring_diene_stereo(m)):
+                sig = 'ring-conjugated-stereo'
             else:
                 try:
                     col, adj = wl.constitution(m)
